@@ -227,7 +227,7 @@ type c13Run struct {
 }
 
 func c13Exec(ego, dir, file string) c13Run {
-	ctx, cancel := context.WithTimeout(context.Background(), 60*time.Second)
+	ctx, cancel := context.WithTimeout(context.Background(), time.Duration(envInt("VERIF_C13_WATCHDOG_S", 300))*time.Second)
 	defer cancel()
 
 	cmd := exec.CommandContext(ctx, ego, "test", file)
@@ -449,7 +449,8 @@ func TestC13(t *testing.T) {
 		defer mu.Unlock()
 
 		if run.TimedOut {
-			r.Inconcl("ego test " + id + " exceeded the 60 s watchdog")
+			r.Inconcl("ego test " + id + " exceeded the per-process watchdog (not a verdict)")
+			r.Count("processes.watchdog", 1)
 
 			return
 		}
@@ -580,6 +581,10 @@ func TestC13(t *testing.T) {
 	}
 
 	wg.Wait()
+
+	if wd := r.Counters["processes.watchdog"]; wd > r.Counters["processes"] {
+		t.Fatalf("more `ego test` processes hit the watchdog (%d) than finished (%d): the machine is too loaded for a verdict", wd, r.Counters["processes"])
+	}
 
 	if r.Counters["events.status_lines"] == 0 {
 		t.Fatal("observed nothing: no TEST status line in any run")
